@@ -645,6 +645,24 @@ func mirrorNoTarget(c *Ctx, op string) {
 	if err != nil {
 		return
 	}
+	// a target directory whose name holds a '#' or a '?': the ware goes where the address says, or the mirror fails
+	for _, odd := range []string{"dst#v2", "dst?copy"} {
+		os.MkdirAll(filepath.Join(base, odd), 0755)
+		os.MkdirAll(filepath.Join(base, "dst"), 0755)
+		g2, e2, p2 := safeCall(func() (api.WareID, error) {
+			return fn.mirror(ctx, id, api.WarehouseLocation("ca+file://"+filepath.Join(base, odd)), []api.WarehouseLocation{whAddr("ca", wh)}, rio.Monitor{})
+		})
+		c.H("mirror-oddname:" + strings.Fields(resTok(g2, e2, p2))[0])
+		if e2 == nil && p2 == "" {
+			if _, e := os.Stat(storedWarePath("ca", filepath.Join(base, odd), id)); e != nil {
+				other := "nowhere"
+				if _, e3 := os.Stat(storedWarePath("ca", filepath.Join(base, "dst"), id)); e3 == nil {
+					other = filepath.Join(base, "dst")
+				}
+				c.PropFail("mirror-not-served", fmt.Sprintf("Mirror into ca+file://%s answered success; the ware is not in that directory but in %s (the URL parser cut the address at the '#' / '?')", filepath.Join(base, odd), other), op)
+			}
+		}
+	}
 	got, merr, pan := safeCall(func() (api.WareID, error) {
 		return fn.mirror(ctx, id, "", []api.WarehouseLocation{whAddr("ca", wh)}, rio.Monitor{})
 	})
